@@ -5,7 +5,7 @@
    alpha-channel removal with an unused colour as key, palette condensation with merged transparent entries,
    indexed->channels - maps a well-formed image that means `pic` to a well-formed image that means a picture
    alpha-equivalent to `pic`; and the whole reduction pipeline, with or without alpha optimisation, keeps every
-   candidate alpha-equivalent to the input (C03_reductions_alpha_partial; `leaves` as in C01).
+   candidate alpha-equivalent to the input (C03_reductions_alpha_partial; nothing assumed about the reductions).
    THE FILTER-SPECIFIC REWRITE of optimize_alpha is proved too: each rewritten scan line differs from the line only in
    the colour bytes of fully transparent pixels (C03_alpha_line), the stream filter_image writes with the optimisation
    on decodes under the specification to a picture alpha-equivalent to the image's (C03_filter_alpha_stream, all ten
@@ -88,7 +88,7 @@ Proof. exact aequiv_gsem. Qed.
 Print Assumptions C03_lift_aequiv.
 
 (* ------------------------------------------------------------------ the reduction pipeline, alpha optimisation on or off *)
-Theorem C03_reductions_alpha_partial : forall (L : leaves) e o img pic baseline evs,
+Theorem C03_reductions_alpha_partial : forall e o img pic baseline evs,
   scale_16 o = false ->
   ameans pic img ->
   perform_reductions e o img = Ok (baseline, evs) ->
@@ -96,7 +96,7 @@ Theorem C03_reductions_alpha_partial : forall (L : leaves) e o img pic baseline 
 Proof. exact perform_reductions_alpha_partial. Qed.
 Print Assumptions C03_reductions_alpha_partial.
 
-Theorem C03_emitted_alpha_partial : forall (L : leaves) e o img max_size c pic,
+Theorem C03_emitted_alpha_partial : forall e o img max_size c pic,
   scale_16 o = false -> ameans pic img ->
   optimize_raw e o img max_size = Ok (Some c) -> ameans pic (c_image c).
 Proof. exact optimize_raw_alpha_partial. Qed.
@@ -122,7 +122,7 @@ Theorem C03_filter_alpha_stream : forall brute (img : image) f stream pic,
 Proof. exact filter_image_alpha_decodes. Qed.
 Print Assumptions C03_filter_alpha_stream.
 
-Theorem C03_emitted_stream_alpha_partial : forall (L : leaves) e o img max_size c pic,
+Theorem C03_emitted_stream_alpha_partial : forall e o img max_size c pic,
   scale_16 o = false -> ameans pic img ->
   optimize_raw e o img max_size = Ok (Some c) ->
   exists d stream pic', c_cdata c = z_deflate e d stream /\
@@ -134,7 +134,7 @@ Print Assumptions C03_emitted_stream_alpha_partial.
 
 (* FILE TO FILE with alpha optimisation allowed: the in-memory entry point returns the input bytes or the serialisation of a PngData
    that the specification's whole-file decoder maps to a picture alpha-equivalent to the one it decodes from the input file *)
-Theorem C03_file_to_file_partial : forall (L : leaves) e o (inflate : list Z -> option (list Z)) bytes out pic nm ih rest,
+Theorem C03_file_to_file_partial : forall e o (inflate : list Z -> option (list Z)) bytes out pic nm ih rest,
   scale_16 o = false ->
   bytes_ok bytes ->
   spec_parse_png bytes = Some ((nm, ih) :: rest) ->
